@@ -294,7 +294,8 @@ func genGoValue(r *rand.Rand, vc *valCfg, t reflect.Type, depth int) reflect.Val
 		}
 		if vc.numericZones && r.IntN(3) == 0 {
 			h := []int{23, -23, 14, -12, 0, 1}[r.IntN(6)]
-			tm = tm.In(time.FixedZone("", h*3600+[]int{0, 1800, 3540, -1800}[r.IntN(4)]*sign(h)))
+			// (offsets with seconds exist: every zone of the tz database before standard time)
+			tm = tm.In(time.FixedZone("", h*3600+[]int{0, 1800, 3540, -1800, 1172, 30}[r.IntN(6)]*sign(h)))
 		}
 		if vc.weirdZones && r.IntN(3) == 0 {
 			names := []string{"A\"B", "back\\slash", "nl\n", "\xff", "<Z>", "MST", ""}
